@@ -7,9 +7,9 @@
 cd "$(dirname "$0")/.."
 SRC=$1; K=$2; ID=$3; PROP=$4; CHECKS=$5
 export GOFLAGS=-mod=mod GOPROXY=off GOSUMDB=off GOTOOLCHAIN=local
-HDR=$(head -1 $SRC/demo${K}_test.go)
-PKG=$(echo "$HDR" | sed -n 's/.*Package directory: *\([^ (]*\).*/\1/p')
-RUN=$(echo "$HDR" | sed -n 's/.*Run: *\(.*\)$/\1/p' | sed 's/   *(.*$//')
+HDR=$(head -3 $SRC/demo${K}_test.go | tr '\n' ' ')
+PKG=$(echo "$HDR" | sed -n 's/.*[Pp]ackage dir[a-z]*: *\([^ (;]*\).*/\1/p')
+RUN=$(echo "$HDR" | grep -o "go test [^/]*\./[^;]*" | head -1 | sed 's/   *(.*$//; s/ *\/\/.*$//; s/ *package [a-z_]* *$//')
 [ -n "$PKG" ] && [ -n "$RUN" ] || { echo "cannot parse demo header: $HDR"; exit 2; }
 WT=/tmp/wt-confirm-$ID
 git -C /repo worktree remove --force $WT >/dev/null 2>&1
